@@ -142,6 +142,9 @@ class MinPathCover(pathmodel.AbstractPathModelDAG):
         
         self.additional_starts = additional_starts
         self.additional_ends = additional_ends
+        self.additional_starts_internal = additional_starts_internal
+        self.additional_ends_internal = additional_ends_internal
+        self.edges_to_ignore_internal = edges_to_ignore_internal
 
         self._solution = None
         self._lowerbound_k = None
@@ -160,7 +163,7 @@ class MinPathCover(pathmodel.AbstractPathModelDAG):
 
         self.solve_time_start = time.perf_counter()
         
-        for i in range(self.get_lowerbound_k(), self.G.number_of_edges() + 1):
+        for i in range(self.get_lowerbound_k(), self.G_internal.number_of_edges() + 1):
             utils.logger.info(f"{__name__}: iteration with k = {i}")
 
             i_solver_options = copy.deepcopy(self.solver_options)
@@ -168,15 +171,15 @@ class MinPathCover(pathmodel.AbstractPathModelDAG):
                 i_solver_options["time_limit"] = self.time_limit - self.solve_time_elapsed
 
             model = kpathcover.kPathCover(
-                        G=self.G,
+                        G=self.G_internal,
                         k=i,
                         subpath_constraints=self.subpath_constraints,
                         subpath_constraints_coverage=self.subpath_constraints_coverage,
                         subpath_constraints_coverage_length=self.subpath_constraints_coverage_length,
                         length_attr=self.length_attr,
-                        elements_to_ignore=self.edges_to_ignore,
-                        additional_starts=self.additional_starts,
-                        additional_ends=self.additional_ends,
+                        elements_to_ignore=self.edges_to_ignore_internal,
+                        additional_starts=self.additional_starts_internal,
+                        additional_ends=self.additional_ends_internal,
                         optimization_options=self.optimization_options,
                         solver_options=i_solver_options,
                     )
@@ -184,6 +187,10 @@ class MinPathCover(pathmodel.AbstractPathModelDAG):
 
             if model.is_solved():
                 self._solution = model.get_solution()
+                if self.cover_type == "node":
+                    # the k-model ran on the node-expanded graph: report paths in the original node names
+                    self._solution["_paths_internal"] = self._solution["paths"]
+                    self._solution["paths"] = self.G_internal.get_condensed_paths(self._solution["paths"])
                 self.set_solved()
                 self.solve_statistics = model.solve_statistics
                 self.solve_statistics["mpc_solve_time"] = time.perf_counter() - self.solve_time_start
@@ -231,7 +238,6 @@ class MinPathCover(pathmodel.AbstractPathModelDAG):
     def get_lowerbound_k(self):
 
         if self._lowerbound_k is None:
-            stG = stdag.stDAG(self.G)
-            self._lowerbound_k = stG.get_width(edges_to_ignore=self.edges_to_ignore)
+            self._lowerbound_k = self.G.get_width(edges_to_ignore=self.edges_to_ignore)
 
         return self._lowerbound_k
